@@ -82,7 +82,13 @@ class RecipeReplay:
         o = self.handle(ctx, n)
         if r in ("-", "plate") or not isinstance(o, self.pp.Plate):
             return o
-        sl = o[self.lab.selector(self.lab.regions[r])]
+        ast = self.lab.regions[r]
+        if ast["k"] == "sub":
+            def py(x):
+                return x["i"] if x["k"] == "at" else slice(None if x["lo"] < 0 else x["lo"], None if x["hi"] < 0 else x["hi"], x["st"] or None)
+            sl = o[self.lab.selector(ast["base"])][py(ast["a"]), py(ast["b"])]
+        else:
+            sl = o[self.lab.selector(ast)]
         ctx["slices"].append((sl, o, repr(sl.slices)))      # the user's slice object: must never change (C04)
         return sl
 
@@ -244,6 +250,9 @@ class RecipeReplay:
             self.report("C16", "declared_set", key, f"{call_txt}: declared {list(recipe.results.keys())}, specified {ev['decl']}", ev)
         elif bool(recipe.locked) != ev["locked"]:
             self.report("C16", "locked_flag", key, f"{call_txt}: locked={recipe.locked}, specified {ev['locked']}", ev)
+        elif "cur" in ev and (recipe.current_stage != ev["cur"] or set(recipe.stages) - {"all"} != set(ev["stageNames"])):
+            self.report("C16", "stage_bookkeeping", key,
+                        f"{call_txt}: open stage {recipe.current_stage!r}, closed stages {sorted(set(recipe.stages) - {'all'})}; specified {ev['cur']!r}, {sorted(ev['stageNames'])}", ev)
         if baked_before is not None:
             after = self.snapshot_answers(ctx)
             if after["results"] != baked_before["results"]:
@@ -435,7 +444,13 @@ class RecipeReplay:
             return set(range(1, nw + 1))
         nr, nc = self.shape[n]
         p = self.pp.Plate("tmp", "1 L", rows=nr, columns=nc)
-        names = [c.name for c in p[self.lab.selector(self.lab.regions[r])].get().flatten()]
+        ast = self.lab.regions[r]
+        if ast["k"] == "sub":
+            def py(x):
+                return x["i"] if x["k"] == "at" else slice(None if x["lo"] < 0 else x["lo"], None if x["hi"] < 0 else x["hi"], x["st"] or None)
+            names = [c.name for c in p[self.lab.selector(ast["base"])][py(ast["a"]), py(ast["b"])].get().flatten()]
+        else:
+            names = [c.name for c in p[self.lab.selector(ast)].get().flatten()]
         allnames = [c.name for c in p.wells.flatten()]
         return {allnames.index(x) + 1 for x in names}
 
@@ -526,7 +541,7 @@ class RecipeReplay:
                         continue
                     tol = 0.5 * 10 ** (-p) * 1.0001
                     for lab, g, e in (("in", gin, exp["in"]), ("out", gout, exp["out"])):
-                        if len(g) != len(e) or any(abs(a - b) > tol * 3 + 1e-6 * abs(b) for a, b in zip(g, e)):
+                        if len(g) != len(e) or any(abs(a - b) > tol + 1e-6 * abs(b) + 1e-9 for a, b in zip(g, e)):
                             self.report("C15", "container_flows", dict(k15, side=lab, same_plate=self.same_plate(ev), remove=has_remove),
                                         f"get_container_flows({name}, {tf!r}, {unit!r})[{lab!r}] = {g}, specified {e}", ev)
                             break
